@@ -669,23 +669,20 @@ def check_non_null_after_completion(prog, run, rule_id):
         r.instance("%s: %d returning paths" % (q, len(rets)))
         if not rets:
             raise AnalysisError("%s: %s has no returning path" % (rule_id, q))
+        def has_call(e, attr):
+            return any(isinstance(x, ast.Call) and isinstance(x.func, ast.Attribute) and x.func.attr == attr for x in ast.walk(e))
         for st, env in rets:
             ok = False
-            for c in env.get(boolx.CALLS, ()):
-                if isinstance(c.func, ast.Attribute) and c.func.attr == "_handle_non_nullable_value":
-                    # its value argument must come from complete_value
-                    if any(isinstance(x, ast.Call) and isinstance(x.func, ast.Attribute) and x.func.attr == "complete_value" for a in c.args for x in ast.walk(a)) \
-                            or any(isinstance(a, ast.Name) for a in c.args[2:3]):
-                        ok = ok or any(isinstance(x, ast.Call) and isinstance(x.func, ast.Attribute) and x.func.attr == "complete_value"
-                                       for x in env.get(boolx.CALLS, ()))
-                if isinstance(c.func, ast.Attribute) and c.func.attr == "map_value" and len(c.args) >= 2:
-                    cb = c.args[1]
-                    body = cb.body if isinstance(cb, ast.Lambda) else (f.nested[cb.id].node if isinstance(cb, ast.Name) and cb.id in f.nested else None)
-                    if body is not None and any(isinstance(x, ast.Call) and isinstance(x.func, ast.Attribute) and x.func.attr == "_handle_non_nullable_value"
-                                                for x in ast.walk(body)) \
-                            and any(isinstance(x, ast.Call) and isinstance(x.func, ast.Attribute) and x.func.attr == "complete_value"
-                                    for x in ast.walk(boolx.path_expand(env.get(boolx.STMTS, ()), None, c.args[0], {}))):
+            if st is not None and st.value is not None:
+                # the returned expression with every local (aliases of bound methods included) replaced by its path value
+                rv = boolx.path_subst(st.value, boolx.path_env(env.get(boolx.STMTS, ()), st))
+                if isinstance(rv, ast.Call) and isinstance(rv.func, ast.Attribute):
+                    if rv.func.attr == "_handle_non_nullable_value" and any(has_call(a, "complete_value") for a in rv.args):
                         ok = True
+                    elif rv.func.attr == "map_value" and len(rv.args) >= 2 and has_call(rv.args[0], "complete_value"):
+                        cb = rv.args[1]
+                        body = cb.body if isinstance(cb, ast.Lambda) else (f.nested[cb.id].node if isinstance(cb, ast.Name) and cb.id in f.nested else None)
+                        ok = body is not None and has_call(body, "_handle_non_nullable_value")
             if not ok:
                 cond = ", ".join("%s=%s" % kv for kv in sorted(env.items()) if kv[0] not in boolx.META)
                 run.report(r, "%s:%s:completed-value-unchecked" % (mod, q), f.where(st),
